@@ -14,15 +14,86 @@ Fixpoint before_semi (s : string) : string :=
   | String a r => if Ascii.eqb a ";"%char then EmptyString else String a (before_semi r)
   end.
 
+(** ** strings.ToLower(strings.TrimSpace(typ)) == target, for an ASCII target without white space.
+
+    [space_prefix]: the text after one leading white-space rune (Go's unicode.IsSpace set on UTF-8,
+    the set of [blank] in Model/Val.v).  [lower_is target s]: the runes of [s] lower-case to the
+    characters of [target], and what follows is white space only.  Besides A-Z, exactly two runes
+    lower-case into ASCII: U+0130 (C4 B0) to 'i' and U+212A (E2 84 AA) to 'k'; every other
+    non-ASCII rune, and every invalid byte (U+FFFD), stays non-ASCII and so never matches. *)
+Definition space_prefix (s : string) : option string :=
+  match s with
+  | EmptyString => None
+  | String a r =>
+    if ascii_space a then Some r else
+    match r with
+    | String b r2 =>
+      if Nat.eqb (byte a) 194 && (Nat.eqb (byte b) 133 || Nat.eqb (byte b) 160) then Some r2 else
+      match r2 with
+      | String c r3 =>
+        let x := byte a in let y := byte b in let w := byte c in
+        if (Nat.eqb x 225 && Nat.eqb y 154 && Nat.eqb w 128)
+        || (Nat.eqb x 226 && Nat.eqb y 128 && ((Nat.leb 128 w && Nat.leb w 138)
+                                              || Nat.eqb w 168 || Nat.eqb w 169 || Nat.eqb w 175))
+        || (Nat.eqb x 226 && Nat.eqb y 129 && Nat.eqb w 159)
+        || (Nat.eqb x 227 && Nat.eqb y 128 && Nat.eqb w 128)
+        then Some r3 else None
+      | EmptyString => None
+      end
+    | EmptyString => None
+    end
+  end.
+
+Fixpoint ltrim_fuel (n : nat) (s : string) : string :=
+  match n with
+  | O => s
+  | S n' => match space_prefix s with Some r => ltrim_fuel n' r | None => s end
+  end.
+Definition ltrim (s : string) : string := ltrim_fuel (String.length s) s.
+
+Definition lower_ascii (a : ascii) : ascii :=
+  let n := byte a in if Nat.leb 65 n && Nat.leb n 90 then ascii_of_nat (n + 32) else a.
+
+Fixpoint lower_is (target s : string) : bool :=
+  match target with
+  | EmptyString => blank s
+  | String t tr =>
+    match s with
+    | EmptyString => false
+    | String a r =>
+      if Ascii.eqb (lower_ascii a) t then lower_is tr r
+      else match r with
+           | String b r2 =>
+             if Ascii.eqb t "i"%char && Nat.eqb (byte a) 196 && Nat.eqb (byte b) 176 then lower_is tr r2       (* U+0130 *)
+             else match r2 with
+                  | String c r3 =>
+                    if Ascii.eqb t "k"%char && Nat.eqb (byte a) 226 && Nat.eqb (byte b) 132 && Nat.eqb (byte c) 170
+                    then lower_is tr r3                                                                        (* U+212A *)
+                    else false
+                  | EmptyString => false
+                  end
+           | EmptyString => false
+           end
+    end
+  end.
+
+Definition media_is (target typ : string) : bool := lower_is target (ltrim typ).
+
 Definition by_media_type (typ : string) : src :=
-  if String.eqb typ "application/json" then SrcJSON
-  else if String.eqb typ "application/x-www-form-urlencoded" then SrcForm
+  if media_is "application/json" typ then SrcJSON
+  else if media_is "application/x-www-form-urlencoded" typ then SrcForm
   else SrcQuery.
 
 (** zhttp.Request: GET and HEAD read the query; every other method dispatches on the media type *)
 Definition http_source (meth ct : string) : src :=
   if String.eqb meth "GET" || String.eqb meth "HEAD" then SrcQuery
   else by_media_type (before_semi ct).
+
+(** the dispatch as it was before the repair: the raw text before the first ';' compared byte for byte *)
+Definition by_media_type_legacy (typ : string) : src :=
+  if String.eqb typ "application/json" then SrcJSON
+  else if String.eqb typ "application/x-www-form-urlencoded" then SrcForm
+  else SrcQuery.
 
 (** The tag a source resolves struct fields with, and the code its decode failure carries. *)
 Definition src_tag (s : src) : string := match s with SrcQuery => "query" | SrcJSON => "json" | SrcForm => "form" end.
